@@ -33,9 +33,11 @@ class Quant:
 
     def inst(self, *ks):
         b = self.fn(*ks)
+        extras = list(getattr(self.fn, 'extras', None) or [])     # axiom instances generated while evaluating the body
         rng = self.rangefn(*ks)
         if self.guard is not None: rng = z3.And(self.guard, rng)
-        return z3.Implies(rng, b)
+        r = z3.Implies(rng, b)
+        return z3.And(r, *extras) if extras else r
 
     def range_cond(self, *ks):
         rng = self.rangefn(*ks)
